@@ -11,4 +11,37 @@ func fbb.cleanString(str) (r)
 
 func fbb.errLine(str) (r)
   props C03
+
+func fbb.parseProposal(line, prop) (err)
+  props C03
+  requires cmd: len(line) >= 2
+  requires prop: prop != nil
+
+func fbb.parseB2Proposal(line, prop) (err)
+  props C03
+  requires prop: prop != nil
+
+func fbb.parseProposalAnswer(str, props, l) (err)
+  props C03
+  requires props: forall k :: 0 <= k && k < len(props) ==> props[k] != nil
+
+func fbb.parseFW(line) (addrs, err)
+  props C03
+
+func fbb.parsePM(str) (pm, err)
+  props C03
+
+func fbb.isSID(str) (r)
+  props C03
+
+func fbb.AddressFromString(addr) (a)
+  props C03
+
+func fbb.readSection(reader, readN) (buf, err)
+  props C03
+  requires reader: reader != nil
+
+func fbb.trimLeftSpace(r) ()
+  props C03
+  requires reader: r != nil
 @*/
